@@ -253,6 +253,12 @@ def r2(ctx):
                     ex = U.value_at(fi.node, idx, st.lineno,
                                     keep=tuple(keep))
                     ok = _right_aligned_terms(ex, cand)
+        # decided on the *value* of the index at the store (locals expanded
+        # flow-sensitively), so `first = len(..) - n; ... [first + i]` and
+        # `idx = len(..) - n + i; ... [idx]` are the same index
+        d = U.value_at(fi.node, idx, st.lineno, keep=tuple(
+            x.id for x in ast.walk(cand) if isinstance(x, ast.Name)))
+        ok = const(d) == -1 or _right_aligned(d, cand)
         ctx.require(ok, 'C15.R2', fi, st,
                     "writer must index _peak['duct'] right-aligned "
                     '(-1 or len(_peak[duct]) - n + i)',
@@ -348,12 +354,11 @@ def _right_aligned(d, cand):
     X, i = src(cand.value), src(cand.slice)
     n_forms = {'%s.shape[0]' % X, 'len(%s)' % X}
     L = "len(self._peak['duct'])"
-    for n in n_forms:
-        for form in ('%s - %s + %s' % (L, n, i), '%s + %s - %s' % (L, i, n),
-                     '%s + %s - %s' % (i, L, n), '%s - (%s - %s)' % (L, n, i)):
-            if src(ast.parse(form, mode='eval').body) == src(d):
-                return True
-    return False
+    terms = U.linear_terms(d)
+    if terms is None:
+        return False
+    return any(sorted(terms) == sorted([(1, L), (1, i), (-1, n)])
+               for n in n_forms)
 
 
 def _right_aligned_terms(d, cand):
